@@ -98,6 +98,9 @@ func NewParser(grammar *Grammar) (*Parser, error) {
 
 // Parse attempts to run the parser for the given input.
 func (p *Parser) Parse(llk *LLk, st *semantic.Statement) error {
+	// The lexer runs in its own goroutine and blocks on a full channel; make
+	// sure it can finish also when parsing stops before the end of the input.
+	defer llk.drain()
 	b, err := p.consume(llk, st, "START")
 	if err != nil {
 		return err
